@@ -74,7 +74,7 @@ RULE = ("random histories on real objects: 1-2 caller profiles (round 30 mm / 55
         "another or a returned profile / solve_velocities_forward or _backward of a sequence that lists a roll pass "
         "(any first unit; as the first solve of fresh objects in 12%, else with a (sequence, profile) pair a plain solve "
         "has shown to converge) / keep handles / deep copy (root or nested) and continue on copy and original / a second "
-        "sequence laid over a leading part of an existing one (3%) / "
+        "sequence laid over a leading part of an existing one (corpus histories only) / "
         "append / replace / change gap / bind a callable / read values on a profile, a template, a unit, its roll or its profiles / "
         "register a classifier hook on a throw-away Transport subclass; ~8% of the cases contain a physically "
         "infeasible pass (solve raises inside pyroll: only the oracle runs from there). A case is non-trivial when it "
@@ -1568,12 +1568,12 @@ def gen_history(rng, w, n_actions, infeasible):
         elif r < 0.67:
             # units that are listed in one sequence handed to a second one: another line laid over a leading part of an
             # existing one (the new sequence takes the parent links, the old one keeps listing the units)
-            q = w.slots[rng.choice(all_roots)]
-            ks = [w.find(u) for u in q._subunits]
-            if len(ks) < 1 or any(k is None for k in ks):
-                continue
-            k2 = w.apply(("seq", ks[:rng.randrange(1, len(ks) + 1)]))
-            copies.append(k2)
+            # NOT generated at random any more (session 4): a unit listed in two sequences is the state of C13's known finding
+            # `adopt-unit-still-listed-elsewhere`; the deep-copy closure clauses are not defined on such a graph (a callable that
+            # holds a unit of the first line drags that line into the copy of the second: thorough seed 5 raised
+            # `deepcopy-backlink-outside:parent` / `deepcopy-backlink-dead:parent` on the unchanged tree - a false alarm of the
+            # clause, not a defect).  The three corpus histories of this class still run.
+            continue
         elif r < 0.74:
             q = rng.choice(all_roots)
             k = w.apply(("transport", rng.choice([0, 1]), False, False))
